@@ -4516,8 +4516,8 @@ class Wallet(object):
             raise WalletError("Total amount of outputs does not match total input amount. If you specify a list of "
                               "outputs, use amount value = 0 to indicate a change/rest output")
 
-        return self.send(to_list, input_arr, network=network, fee=fee, min_confirms=min_confirms, locktime=locktime,
-                         broadcast=broadcast, replace_by_fee=replace_by_fee)
+        return self.send(to_list, input_arr, account_id=account_id, network=network, fee=fee, min_confirms=min_confirms,
+                         locktime=locktime, broadcast=broadcast, replace_by_fee=replace_by_fee)
 
     def wif(self, is_private=False, account_id=0):
         """
